@@ -66,6 +66,7 @@ type Contract struct {
 	Props       []string
 	Requires    []*Clause
 	Ensures     []*Clause
+	Returns     []*Clause // checked at every return with locals visible; never assumed by callers
 	Assigns     []*SpecExpr
 	HasAssign   bool
 	Fresh       bool // may allocate
@@ -221,7 +222,7 @@ func displayName(f *types.Func) string {
 	return pkg + f.Name()
 }
 
-var kwRe = regexp.MustCompile(`^(requires|ensures|assigns|loop|site|pure|trusted|noinline|safety|exits_if|panics_if|props|is|let|errdrop)\b`)
+var kwRe = regexp.MustCompile(`^(requires|ensures|returns|assigns|loop|site|pure|trusted|noinline|safety|exits_if|panics_if|props|is|let|errdrop)\b`)
 
 func (w *World) loadContracts(p *packages.Package) error {
 	dir := ""
@@ -348,6 +349,11 @@ func (w *World) parseBlock(p *packages.Package, path string, b *rawBlock) error 
 				return err
 			}
 			c.Ensures = append(c.Ensures, cl)
+		case "returns":
+			if err := parse(rest); err != nil {
+				return err
+			}
+			c.Returns = append(c.Returns, cl)
 		case "exits_if":
 			if err := parse(rest); err != nil {
 				return err
@@ -453,7 +459,7 @@ func (w *World) parseBlock(p *packages.Package, path string, b *rawBlock) error 
 		}
 	}
 	// clauses parsed before a later "props" line inherit
-	for _, lst := range [][]*Clause{c.Requires, c.Ensures, c.Sites, c.ExitsIf, c.PanicsIf} {
+	for _, lst := range [][]*Clause{c.Requires, c.Ensures, c.Returns, c.Sites, c.ExitsIf, c.PanicsIf} {
 		for _, cl := range lst {
 			if cl.Props == nil {
 				cl.Props = c.Props
